@@ -488,7 +488,7 @@ private theorem wrapInline_cL (frags : List Frag) (vars : Vars) (w : String → 
   | inline pre post d ss ss' _ ih =>
     simp [cL_append, cL_cons, cL_nil, cLv_inline frags vars w hc, ih]
 
-private theorem wrapInline_bound (vars : Vars) {s s' : List Sel} (h : WrapInline s s') :
+theorem wrapInline_bound (vars : Vars) {s s' : List Sel} (h : WrapInline s s') :
     boundL vars s' = boundL vars s := by
   induction h with
   | here pre mid post => simp [boundL_append, boundL_cons, boundSel_inline_none, boundL]
@@ -617,7 +617,7 @@ private theorem wrapSpread_cL (frags : List Frag) (vars : Vars) (nm : String) (b
       cL_frame frags vars nm body w w' hc hc' hfree _ hs.1.1,
       cL_frame frags vars nm body w w' hc hc' hfree _ hs.2]
 
-private theorem wrapSpread_bound (vars : Vars) (nm : String) (body : List Sel) {s s' : List Sel}
+theorem wrapSpread_bound (vars : Vars) (nm : String) (body : List Sel) {s s' : List Sel}
     (h : WrapSpread nm body s s') (hb : boundL vars s = true) : boundL vars s' = true ∧ boundL vars body = true := by
   induction h with
   | here pre post =>
@@ -633,7 +633,7 @@ private theorem wrapSpread_bound (vars : Vars) (nm : String) (body : List Sel) {
     have := ih hb.1.2.2
     exact ⟨⟨⟨hb.1.1, hb.1.2.1, this.1⟩, hb.2⟩, this.2⟩
 
-private theorem wrapSpread_free_body (nm : String) (body : List Sel) {s s' : List Sel}
+theorem wrapSpread_free_body (nm : String) (body : List Sel) {s s' : List Sel}
     (h : WrapSpread nm body s s') (hs : freeL nm s = true) : freeL nm body = true := by
   induction h with
   | here pre post =>
